@@ -13,6 +13,7 @@
     R <fails> <checked> <key> <object> <item>   cJSON_ReplaceItemInObject(object, key, item), ledger from live=1000; <checked> = does the
                          code inspect the key copy (the harness ignores it, the tie passes what it observed)
                          -> `ok|FAIL next= live= | <object> | consumed` or `… | orphan <item>`
+    S <fails> <hex>      cJSON_CreateString(text), answers as D
     A <idx> <item>       cJSON_GetArraySize / cJSON_GetArrayItem -> `size <n> some <j>` | `size <n> none`
 
   <item> (prefix form): I <kind> <flags: 1 = IsReference, 2 = StringIsConst> <valueint> <valuedouble bits hex>
@@ -100,6 +101,13 @@ def stepLine (u : Unit) (line : String) : Unit × List String :=
       let orphan := match r.orphan with | none => "attached" | some o => "orphan " ++ showItem o
       (u, [s!"{if r.ok then "ok" else "FAIL"} next={r.a.next} live={r.a.live} | {showItem r.obj} | {orphan}"])
     | _, _, _ => (u, ["ERROR bad O"])
+  | ["S", f, str] =>
+    match parseFails f, Hex.toBytes? str with
+    | some fl, some str =>
+      match createString (fun n => fl.contains n) str ⟨0, 0⟩ with
+      | (some c, a) => (u, [s!"ok {showItem c} next={a.next} live={a.live} del={delFrees c}"])
+      | (none, a) => (u, [s!"NULL next={a.next} live={a.live}"])
+    | _, _ => (u, ["ERROR bad S"])
   | "R" :: f :: chk :: key :: rest =>
     match parseFails f, Hex.toBytes? key, parseItems 2 rest with
     | some fl, some key, some ([obj, it], []) =>
